@@ -7,8 +7,8 @@ queue operations, every virtual socket/file/select operation, thread
 start/finish/join and every bytecode of connection.py that touches a shared
 attribute.  The oracle is the independent server's deframed byte log.
 """
-from vf import harness, explore
-from vf.runner import ToolError
+from vf import harness, explore, statehash
+from vf.runner import ToolError, REPO
 
 LEVEL = 'model_checking'
 RULE = ('For each thread program (P1 two queued writes || one forced write, '
@@ -42,6 +42,7 @@ PROGRAMS = {
 }
 MODES = ('plain', 'compress', 'encrypt')
 VERSION = 757
+CANON = statehash.Canon(REPO, (__file__,))
 
 
 def body(W, prog, mode):
@@ -68,14 +69,8 @@ def body(W, prog, mode):
     base = len(S.log)
     threads, final = PROGRAMS[prog]
     results = {}
-    states = set()
-
-    def monitor(S_, me, kind):
-        if S_.window:
-            states.add(hash((tuple((a.id, a.state, a.steps)
-                                   for a in S_.agents),
-                             len(W.net.conns[-1].c2s))) & 0xffffffffffff)
-    S.monitors.append(monitor)
+    S.state_fn = statehash.make_state_fn(W, CANON, [conn],
+        extra=lambda: (results, errs))
 
     def do(tid, op):
         kind, arg = op
@@ -120,10 +115,10 @@ def body(W, prog, mode):
     for s in W.servers:
         s.close()
     W.settle()
-    return judge(W, S, conn, srv, prog, mode, results, errs, base, states)
+    return judge(W, S, conn, srv, prog, mode, results, errs, base)
 
 
-def judge(W, S, conn, srv, prog, mode, results, errs, base, states):
+def judge(W, S, conn, srv, prog, mode, results, errs, base):
     viol = []
     log = S.log[base:]
     idx = {}
@@ -197,6 +192,18 @@ def judge(W, S, conn, srv, prog, mode, results, errs, base, states):
         viol.append(('send-after-disconnect',
                      '%d bytes were sent after disconnect() returned'
                      % sum(len(e[3]) for e in sends_after)))
+    if immediate:
+        # an immediate disconnect sends nothing itself (others may still be
+        # sending while it waits for the lock; once it returns, nobody may)
+        who = [a.id for a in S.agents if a.name == 'user' + disc[0]]
+        end = disc_ret if disc_ret is not None else len(log)
+        own = [ev for i, ev in enumerate(log) if ev[0] == 'send'
+               and disc_call < i < end and ev[2] in who]
+        if own:
+            viol.append(('immediate-disconnect-sent',
+                         'disconnect(immediate=True) itself sent %d bytes '
+                         '(queued packets were flushed)'
+                         % sum(len(e[3]) for e in own)))
     if not srv.client_gone and disc_ret is not None:
         viol.append(('socket-not-closed', 'after disconnect() the server '
                      'does not see the connection closed'))
@@ -211,49 +218,69 @@ def judge(W, S, conn, srv, prog, mode, results, errs, base, states):
     outcome = (tuple(c[:3] for c in chats),
                tuple(sorted((k, v) for k, v in results.items())),
                tuple(sorted(set(errs))), bool(srv.client_gone))
-    return {'outcome': outcome, 'violations': viol, 'states': states}
+    return {'outcome': outcome, 'violations': viol}
 
 
 def factory(params):
     prog, mode = params['prog'], params['mode']
 
-    def scenario(prefix, expect):
+    def scenario(prefix, expect, visited=None, budget=0):
         return harness.run(lambda W: body(W, prog, mode), prefix,
-                           tracing=True, expect=expect, horizon=30000)
+                           tracing=True, expect=expect, horizon=30000,
+                           visited=visited, budget=budget)
     return scenario
 
 
+# (program, mode) -> preemption bound per tier.  Costs measured on 16 cores
+# with the shared visited table: P1/P3 bound 2 ~ 6-10 s, P4 bound 2 ~ 60 s,
+# P2 bound 1 ~ 15 s, P2 bound 2 ~ 6 min.
+QUICK = {('P1', 'plain'): 2, ('P1', 'compress'): 2, ('P1', 'encrypt'): 2,
+         ('P3', 'plain'): 2, ('P3', 'compress'): 1, ('P3', 'encrypt'): 1,
+         ('P2', 'plain'): 1, ('P4', 'plain'): 1}
+THOROUGH = {(p, m): 2 for p in PROGRAMS for m in MODES}
+THOROUGH.update({('P1', 'plain'): 3, ('P3', 'plain'): 3})
+
+
 def run(ctx):
-    harness.setup()
-    bound = 3 if ctx.thorough else 2
-    progs = sorted(PROGRAMS)
+    plan = THOROUGH if ctx.thorough else QUICK
     total_pre = 0
-    for prog in progs:
-        for mode in MODES:
-            b = bound
-            if not ctx.thorough and (mode != 'plain' and prog in ('P2', 'P4')):
-                b = 1       # quick: bound 2 on plain, bound 1 on the rest
-            params = {'prog': prog, 'mode': mode}
-            res = explore.explore(ctx, factory, params, b,
-                                  label='%s/%s ' % (prog, mode))
-            ctx.cls('%s/%s bound=%d execs=%d outcomes=%d with_preemption=%d'
-                    % (prog, mode, b, res.execs, len(res.outcomes),
-                       res.with_pre))
-            total_pre += res.with_pre
-            if len(res.outcomes) < 2 and b >= 1:
-                raise ToolError('vacuous exploration: %s/%s has one outcome'
-                                % (prog, mode))
+    ex = explore.Explorer(table_bits=25 if ctx.thorough else 23)
+    try:
+        total_pre = _run(ctx, ex, plan)
+    finally:
+        ex.close()
     ctx.extra['executions_with_preemption'] = total_pre
-    ctx.extra['preemption_bound'] = bound
     ctx.sample({'program': 'P1', 'threads': PROGRAMS['P1'][0],
                 'then': PROGRAMS['P1'][1], 'mode': 'plain',
-                'schedule': 'choice list, e.g. [0,0,1,0,2]'})
+                'schedule': 'choice list, e.g. [0,0,1,0,2]: index into the '
+                'enabled agents (running agent first, then ascending id) at '
+                'each choice point'})
+
+
+def _run(ctx, ex, plan):
+    total_pre = 0
+    for (prog, mode), b in sorted(plan.items()):
+        params = {'prog': prog, 'mode': mode}
+        res = ex.explore(ctx, factory, params, b,
+                         label='%s/%s ' % (prog, mode))
+        ctx.cls('%s/%s bound=%d' % (prog, mode, b))
+        ctx.extra['%s/%s' % (prog, mode)] = {
+            'preemption_bound': b, 'complete_executions': res.execs,
+            'executions_cut_at_a_visited_state': res.pruned,
+            'states_hashed': res.state_keys,
+            'distinct_outcomes': len(res.outcomes),
+            'executions_with_preemption': res.with_pre}
+        total_pre += res.with_pre
+        if len(res.outcomes) < 2 and b >= 1 and not res.violations:
+            raise ToolError('vacuous exploration: %s/%s has one outcome'
+                            % (prog, mode))
+    return total_pre
 
 
 def replay(ctx, case):
     harness.setup()
     scenario = factory(case['params'])
-    x = scenario(list(case['choices']), None)
+    x = scenario(list(case['choices']), None, None, 0)
     ctx.count()
     res = x.result or {}
     viol = list(res.get('violations', ()))
